@@ -129,6 +129,9 @@ class FnTranslator:
         self.spec = spec
         self.domain = domain
         self.ops = OPS[domain]
+        if spec.get("ops_override", {}).get(domain):
+            # e.g. {"Q": {"exp": "qexp_fast"}}: another spelling of an operator for one carrier
+            self.ops = dict(self.ops, **spec["ops_override"][domain])
         self.src = Source(repo, spec["file"])
         self.fn = self.src.find(spec["qual"])
         self.where = "%s:%s" % (spec["file"], spec["qual"])
@@ -485,8 +488,9 @@ class FnTranslator:
         rec = self.record(env, rv)
         return "(OkS %s)" % rec if self.has_raise else rec
 
-    def block(self, stmts, env, rest):
-        """translate stmts followed by continuation rest(env) -> coq text"""
+    def block(self, stmts, env, rest, unwrap=False):
+        """translate stmts followed by continuation rest(env) -> coq text
+        (unwrap: internal, see the `if x is None` case; False = not tried yet, None = plain, True = unwrapped)"""
         if not stmts:
             return rest(env)
         s, tail = stmts[0], stmts[1:]
@@ -553,13 +557,41 @@ class FnTranslator:
                 return '(ErrS "%s" %s)' % (name, self.record(env, self.default_ret()))
             return '(Err "%s")' % name
         if isinstance(s, ast.If):
+            # `if x is None: A else: B` on an optional x.  First the plain translation (x stays an
+            # option in both branches); only if that is refused, retry with x unwrapped in the
+            # not-None branch (`match x with None => A | Some x' => B end`).  [added for Battery.reset]
+            nt = self._none_test(s.test)
+            if nt is not None and unwrap is False:
+                snap = (dict(self.params), dict(self.extra), dict(self.fresh))
+                try:
+                    return self.block(stmts, env, rest, unwrap=None)
+                except Untranslatable:
+                    self.params, self.extra, self.fresh = snap
+                    return self.block(stmts, env, rest, unwrap=True)
             c, tc = self.expr(s.test, env)
             if tc != "bool":
                 self.err(s, "non-boolean if test: %s" % self.txt(s.test))
+            env0 = env
+            env_b, env_e = env, env
+            cond = lambda a, b: "(if %s then\n%s\nelse\n%s)" % (c, a, b)
+            if nt is not None and unwrap is True:
+                xnode, is_none = nt
+                x, tx = self.expr(xnode, env)
+                if not tx.startswith("opt"):
+                    self.err(s, "`is None` on a non-optional (%s)" % self.txt(xnode))
+                inner = self.newname(self.txt(xnode))
+                env_u = dict(env)
+                env_u[self.txt(xnode)] = (inner, "num")
+                if is_none:
+                    env_e = env_u
+                    cond = lambda a, b: "(match %s with None =>\n%s\n| Some %s =>\n%s\nend)" % (x, a, inner, b)
+                else:
+                    env_b = env_u
+                    cond = lambda a, b: "(match %s with Some %s =>\n%s\n| None =>\n%s\nend)" % (x, inner, a, b)
             if self.has_exit(s.body) or self.has_exit(s.orelse):
-                a = self.block(s.body, env, nxt)
-                b = self.block(s.orelse, env, nxt)
-                return "(if %s then\n%s\nelse\n%s)" % (c, a, b)
+                a = self.block(s.body, env_b, nxt)
+                b = self.block(s.orelse, env_e, nxt)
+                return cond(a, b)
             W = self.assigned(s.body + s.orelse)
             # branch-local temporaries (assigned on one branch only, undefined before) are not
             # merged; a later use of one is an unbound name and fails closed
@@ -591,8 +623,12 @@ class FnTranslator:
                     if k in e:
                         types.setdefault(k, e[k][1])
                 return tup(e)
-            a = self.block(s.body, env, tup_t)
-            b = self.block(s.orelse, env, tup_t)
+            if "$effects" in env:
+                for e_ in (env_b, env_e):
+                    if e_ is not env and "$effects" not in e_:
+                        e_["$effects"] = env["$effects"]
+            a = self.block(s.body, env if env_b is env0 else env_b, tup_t)
+            b = self.block(s.orelse, env if env_e is env0 else env_e, tup_t)
             env2 = dict(env)
             names = []
             for k in W:
@@ -600,7 +636,7 @@ class FnTranslator:
                 names.append(n)
                 env2[k] = (n, types.get(k, self.type_of_key(k)))
             pat = names[0] if len(names) == 1 else "'(" + ", ".join(names) + ")"
-            return "let %s := (if %s then\n%s\nelse\n%s) in\n%s" % (pat, c, a, b, nxt(env2))
+            return "let %s := %s in\n%s" % (pat, cond(a, b), nxt(env2))
         self.err(s, "statement %s" % type(s).__name__)
 
     # -- entry points ------------------------------------------------------------------------
@@ -699,7 +735,12 @@ def translate_group(repo, specs, domain):
             spec["file"], spec["qual"] + (" @ " + spec["expr_path"] if "expr_path" in spec else ""),
             info["line"], info["end_line"], text))
         infos.append(info)
-    return HEADERS[domain] + "\n" + "\n".join(texts), infos
+    extra = []
+    for spec in specs:      # optional per-anchor imports, e.g. {"Q": "From ACN Require Import Base.QExp."}
+        imp = spec.get("imports", {}).get(domain)
+        if imp and imp not in extra:
+            extra.append(imp)
+    return HEADERS[domain] + "".join(e.rstrip("\n") + "\n" for e in extra) + "\n" + "\n".join(texts), infos
 
 
 # ---------------------------------------------------------------------------------------------
